@@ -1,3 +1,12 @@
+/-!
+# DESIGN-PHASE SEED (superseded by `Model/Ast.lean`, namespace `SV.Parser`) - `parser.propagateNot` (C12)
+
+`SV.Ast` / `SV.Op` / `SV.eval` / `SV.propagateNot` here are the prototype; the C12 theorems are about
+`SV.Parser.Ast` / `propagateNot` / `finish` (Model/Ast.lean, reused by ParserCore, SeqQLFilter, LegacyParser).
+The two are redundant, not different: `Consistency/PNot.lean` proves them equal on ALL inputs under the bijection
+`astToP` / `astOfP` (`cons_pnot_propagateNot_seed_eq_parser`, `cons_pnot_propagateNot_parser_eq_seed`,
+`cons_pnot_eval_seed_eq_parser`, `cons_pnot_noNand_seed_eq_parser`, `cons_pnot_astOfP_astToP`, `cons_pnot_astToP_astOfP`).
+-/
 namespace SV
 
 inductive Op | or | and | nand
